@@ -218,6 +218,7 @@ typedef struct http_txn {
 	nni_http_res    *res;
 	nni_http_chunks *chunks;
 	http_txn_state   state;
+	nng_err          abort_rv; // set when the upper aio was canceled
 	nni_reap_node    reap;
 } http_txn;
 
@@ -274,7 +275,12 @@ http_txn_cb(void *arg)
 	nni_http_chunk *chunk = NULL;
 
 	nni_mtx_lock(&http_txn_lk);
-	if ((rv = nni_aio_result(&txn->aio)) != NNG_OK) {
+	if ((rv = nni_aio_result(&txn->aio)) == NNG_OK) {
+		// A cancellation that arrived between two steps found no
+		// operation to abort on the lower aio.
+		rv = txn->abort_rv;
+	}
+	if (rv != NNG_OK) {
 		http_txn_finish_aios(txn, rv);
 		nni_mtx_unlock(&http_txn_lk);
 		http_txn_fini(txn);
@@ -371,6 +377,7 @@ http_txn_cancel(nni_aio *aio, void *arg, nng_err rv)
 	http_txn *txn = arg;
 	nni_mtx_lock(&http_txn_lk);
 	if (nni_aio_list_active(aio)) {
+		txn->abort_rv = rv;
 		nni_aio_abort(&txn->aio, rv);
 	}
 	nni_mtx_unlock(&http_txn_lk);
